@@ -55,6 +55,7 @@ reports nothing; the handler's exception (if it throws) is the only way out othe
 def reportedOnce (o : Obs δ) : Bool :=
   match o.kind with
   | .holderCall => o.handled == [] && !o.thrown
+  | .finalize => true     -- a batch: the serialising Assembler reports through the CodeHolder's handler, not the Builder's
   | _ =>
     if o.ret = 0 then o.handled == [] && !o.thrown
     else match o.handler with
@@ -70,7 +71,8 @@ def failedIsAtomic (o : Obs δ) : Bool :=
 def oneShotCleared (o : Obs δ) : Bool :=
   o.kind ≠ .emit || o.oneShot = (0, 0, 0, false)
 
-/-- the emitter is indistinguishable from one that has only ever seen the accepted calls -/
+/-- the emitter is indistinguishable from one that has only ever seen the accepted calls (`finalize` is replayed on the shadow
+whether it fails or not: it must behave identically on identical node lists) -/
 def likeFresh (o : Obs δ) : Bool := o.after = o.shadow
 
 /-- an accepted call never shrinks anything -/
